@@ -695,3 +695,145 @@ func TestVerif_C07_AdminGate(t *testing.T) {
 		return res, verr
 	})
 }
+
+// ---- (e) first packets forged without knowledge of the server's public key ----
+//
+// Someone who does not know the server's static public key can still choose the 32 "ephemeral key" bytes freely.
+// Special encodings (small-order points, 0, 1, p-1, p, p+1, with and without bit 255) make a naive X25519 return
+// a predictable (all-zero) secret. The forger seals a perfectly plausible payload (authorised UID, served
+// method, current timestamp) under the secret such an implementation would compute. None may be accepted.
+
+type c07Forged struct {
+	Point    int  // index into c07Points
+	Bit255   bool // additionally set the ignored top bit
+	WS       bool
+	Admin    bool // forge the admin UID with session id 0
+	KeyGuess int  // 0: all-zero secret, 1: secret = the point itself, 2: X25519(1, point) as computed by a permissive implementation
+}
+
+var c07Points = func() [][32]byte {
+	var pts [][32]byte
+	add := func(hexs string) {
+		var p [32]byte
+		for i := 0; i < 32; i++ {
+			fmt.Sscanf(hexs[2*i:2*i+2], "%02x", &p[i])
+		}
+		pts = append(pts, p)
+	}
+	add("0000000000000000000000000000000000000000000000000000000000000000") // 0
+	add("0100000000000000000000000000000000000000000000000000000000000000") // 1
+	add("e0eb7a7c3b41b8ae1656e3faf19fc46ada098deb9c32b1fd866205165f49b800") // order 8
+	add("5f9c95bca3508c24b1d0b1559c83ef5b04445cc4581c8e86d8224eddd09f1157") // order 8
+	add("ecffffffffffffffffffffffffffffffffffffffffffffffffffffffffffff7f") // p-1
+	add("edffffffffffffffffffffffffffffffffffffffffffffffffffffffffffff7f") // p
+	add("eeffffffffffffffffffffffffffffffffffffffffffffffffffffffffffff7f") // p+1
+	return pts
+}()
+
+func c07ForgedPacket(t *testing.T, c c07Forged, now time.Time) ([]byte, Transport, error) {
+	bases := c07GetBases(t)
+	pt := c07Points[c.Point%len(c07Points)]
+	if c.Bit255 {
+		pt[31] |= 0x80
+	}
+	var secret [32]byte
+	switch c.KeyGuess % 3 {
+	case 1:
+		secret = c07Points[c.Point%len(c07Points)]
+	case 2:
+		var one [32]byte
+		one[0] = 1
+		var out [32]byte
+		curve25519.ScalarMult(&out, &one, &pt) //nolint:staticcheck // deliberately the permissive primitive
+		secret = out
+	}
+	plain := make([]byte, 48)
+	uid := []byte("c08-bypass-user!")
+	var sid uint32 = 7
+	if c.Admin {
+		uid = c07AdminUID
+		sid = 0
+	}
+	copy(plain, uid)
+	copy(plain[16:28], "shadowsocks")
+	plain[28] = 0
+	ts := uint64(now.Unix())
+	for i := 0; i < 8; i++ {
+		plain[29+i] = byte(ts >> (56 - 8*i))
+	}
+	plain[37], plain[38], plain[39], plain[40] = byte(sid>>24), byte(sid>>16), byte(sid>>8), byte(sid)
+	sealed, err := common.AESGCMEncrypt(pt[:12], secret[:], plain)
+	if err != nil || len(sealed) != 64 {
+		return nil, nil, fmt.Errorf("harness: seal: %v", err)
+	}
+	if c.WS {
+		hidden := base64.StdEncoding.EncodeToString(append(append([]byte(nil), pt[:]...), sealed...))
+		req := "GET / HTTP/1.1\r\nHost: cdn.example\r\nUpgrade: websocket\r\nConnection: Upgrade\r\nSec-WebSocket-Key: dGhlIHNhbXBsZSBub25jZQ==\r\nSec-WebSocket-Version: 13\r\nhidden: " + hidden + "\r\n\r\n"
+		return []byte(req), WebSocket{}, nil
+	}
+	b := bases[0] // firefox hello as the carrier
+	pkt := append([]byte(nil), b.first...)
+	const randomOff = 5 + 4 + 2
+	copy(pkt[randomOff:randomOff+32], pt[:])
+	copy(pkt[randomOff+32+1:randomOff+32+1+32], sealed[:32])
+	// key share: locate the genuine one (32 bytes equal to the genuine sealed[32:64]) and overwrite it
+	i := bytes.Index(pkt, b.id.sealed[32:64])
+	if i < 0 {
+		return nil, nil, fmt.Errorf("harness: key share not found in carrier hello")
+	}
+	copy(pkt[i:i+32], sealed[32:64])
+	return pkt, TLS{}, nil
+}
+
+func TestVerif_C07_Forged(t *testing.T) {
+	const prop, sub = "C07", "Forged"
+	vk.Direct(t, prop, sub, func(fail func(any, error)) {
+		now := time.Unix(1700000000, 0)
+		one := func(c c07Forged) error {
+			pkt, tr, err := c07ForgedPacket(t, c, now)
+			if err != nil {
+				return err
+			}
+			_, perr := vk.Protect(func() (vk.Result, error) {
+				sta := c07FreshState(now)
+				sta.AdminUID = c07AdminUID
+				ci, _, aerr := AuthFirstPacket(pkt, tr, sta)
+				if aerr == nil {
+					return vk.Result{}, vk.ViolateSig("forged-accepted", "a first packet forged without the server's public key (ephemeral key = special point #%d, bit255=%v, secret guess %d, websocket=%v) was accepted as UID %x session id %d", c.Point, c.Bit255, c.KeyGuess, c.WS, ci.UID, ci.SessionId)
+				}
+				return vk.Result{}, nil
+			})
+			return perr
+		}
+		var rc c07Forged
+		if vk.ReplayScenario(prop, sub, &rc) {
+			if err := one(rc); err != nil {
+				fail(rc, err)
+			}
+			return
+		}
+		if vk.InReplay() {
+			return
+		}
+		n := 0
+		for p := range c07Points {
+			for _, bit := range []bool{false, true} {
+				for _, ws := range []bool{false, true} {
+					for _, admin := range []bool{false, true} {
+						for guess := 0; guess < 3; guess++ {
+							c := c07Forged{Point: p, Bit255: bit, WS: ws, Admin: admin, KeyGuess: guess}
+							if err := one(c); err != nil {
+								fail(c, err)
+								return
+							}
+							vk.AddDistinct(prop, sub, uint64(n), 1, fmt.Sprintf("point=%d", p))
+							n++
+						}
+					}
+				}
+			}
+		}
+		vk.SetExhaustive(prop, sub, true)
+		vk.AddSample(prop, sub, c07Forged{Point: 2, WS: true, Admin: true})
+	})
+}
